@@ -12,6 +12,7 @@ import gc
 from harness.common import leanproc
 from harness.common.shrink import ddmin
 from harness.common.util import InfraError
+from harness.common.pool_c20c11 import CaseTimeout, watchdog
 from harness.common.vmachine import VMachine, BootError
 
 ID = "C11"
@@ -62,6 +63,14 @@ DEV_KEYS = [d[1] for d in DEVICES]
 DEV_EVENT_VARS = ["shot_sh1", "shot_sh2", "shot_sh3", "shot_shf_enabled", "shot_sh1_enabled", "m1_tm_tick"]
 
 
+# lifecycle events of a ball end / turn change at which a start request for the game mode can arrive
+POS_BEFORE = ["ball_ended", "player_turn_will_end", "player_turn_ending"]          # ball over, turn not yet over
+POS_WINDOW = ["player_turn_ended", "player_turn_will_start", "player_turn_starting"]  # nobody is up
+POS_AFTER = ["player_turn_started", "ball_will_start", "ball_starting"]              # the next player is up
+POSITIONS = POS_BEFORE + POS_WINDOW + POS_AFTER
+CASE_SECONDS = 30
+
+
 def vp_add(k, d):
     return "vp_add_%s_%s" % (k, str(d).replace("-", "m"))
 
@@ -71,11 +80,11 @@ def vp_set(k, v):
 
 
 def build(cfg):
-    main = ["modes:", "  - m1", "game:", "  balls_per_game: %d" % cfg["bpg"], "  max_players: 4",
+    main = ["modes:", "  - m1", "  - mv", "game:", "  balls_per_game: %d" % cfg["bpg"], "  max_players: 4",
             "switches:", "  s_start:", "    number: 1", "    tags: start",
             "player_vars:", "  pa:", "    initial_value: %d" % cfg["pa"], "    value_type: int",
             "  ps:", "    initial_value: %s" % cfg["ps"], "    value_type: str"]
-    mode = ["mode:", "  start_events: ball_started", "  priority: 200", "counters:",
+    mode = ["mode:", "  start_events: ball_started, start_m1", "  stop_events: stop_m1", "  priority: 200", "counters:",
             "  cp:", "    count_events: hit_c", "    count_complete_value: %d" % cfg["goal"], "    persist_state: true",
             "    reset_on_complete: false", "    disable_on_complete: true",
             "  cn:", "    count_events: hit_c", "    count_complete_value: %d" % cfg["goal"], "    persist_state: false",
@@ -100,16 +109,17 @@ def build(cfg):
                  "    restart_on_next_ball_when_started: %s" % restart]
     mode += ["timers:", "  tm:", "    start_value: 0", "    control_events:",
              "      - event: tm_add", "        action: add", "        value: 2",
-             "      - event: tm_jump", "        action: jump", "        value: 7",
-             "variable_player:"]
+             "      - event: tm_jump", "        action: jump", "        value: 7"]
+    main = main   # (variable_player must live in a game mode: its own mode `mv`, which the harness never stops)
+    mv = ["mode:", "  start_events: ball_started", "  priority: 150", "variable_player:"]
     for k in INT_VARS:
         for d in ADD_VALUES:
-            mode += ["  %s:" % vp_add(k, d), "    %s:" % k, "      int: %d" % d]
+            mv += ["  %s:" % vp_add(k, d), "    %s:" % k, "      int: %d" % d]
         for v in SET_VALUES:
-            mode += ["  %s:" % vp_set(k, v), "    %s:" % k, "      int: %d" % v, "      action: set"]
+            mv += ["  %s:" % vp_set(k, v), "    %s:" % k, "      int: %d" % v, "      action: set"]
     for v in STR_VALUES:
-        mode += ["  %s:" % vp_set("ps", v), "    ps:", "      string: %s" % v, "      action: set"]
-    return "\n".join(main) + "\n", "\n".join(mode) + "\n"
+        mv += ["  %s:" % vp_set("ps", v), "    ps:", "      string: %s" % v, "      action: set"]
+    return "\n".join(main) + "\n", "\n".join(mode) + "\n", "\n".join(mv) + "\n"
 
 
 def gen_cfg(r):
@@ -158,6 +168,14 @@ def gen_ops(r):
             ops.append(["set", "mx", r.choice([0, 3, "a", "b", ""])])       # a variable whose type changes
         elif k < 0.76:
             ops.append(["extra"])
+        elif k < 0.79:
+            ops.append([r.choice(["mstop", "mstart", "mstart"])])
+        elif k < 0.86:
+            # a start request arrives at a lifecycle event of the ball end / turn change, optionally while that (queue)
+            # event is held by a handler; device ops right afterwards
+            ops.append(["drainw", r.choice(POSITIONS), r.random() < 0.5])
+            for _ in range(r.randint(0, 3)):
+                ops.append(gen_dev_op(r))
         elif k < 0.94:
             ops.append(["drain"])
         elif k < 0.96:
@@ -181,10 +199,16 @@ def tok(v):
     return "?" + type(v).__name__
 
 
-def model_line(op):
+def model_line(op, fired=None):
     k = op[0]
     if k in ("start", "addplayer", "drain", "endgame"):
         return k
+    if k == "mstop":
+        return "modestop"
+    if k == "mstart":
+        return "modestart"
+    if k == "drainw":
+        return "drainpre" if fired in POS_BEFORE else "drain"
     if k in ("set", "vset"):
         return "set %s %s" % (op[1], tok(op[2]))
     if k == "add":
@@ -224,8 +248,8 @@ ORACLE_ONLY_KEYS = ["ap_state", "sp_state"]
 class Run:
     def __init__(self, cfg):
         self.cfg = cfg
-        main, mode = build(cfg)
-        self.vm = VMachine(main, modes={"m1": mode}, game=True)
+        main, mode, mv = build(cfg)
+        self.vm = VMachine(main, modes={"m1": mode, "mv": mv}, game=True)
         self.events = []
         self.dev_events = []
 
@@ -247,6 +271,24 @@ class Run:
             def h2(_n=name, **kwargs):
                 self.dev_events.append((_n, kwargs.get("value"), kwargs.get("player_num")))
             m.events.add_handler("player_" + name, h2, priority=10 ** 6)
+        self.arm = None         # (lifecycle event, hold) for the next drain
+        self.fired = None
+        self.binding = []       # (lifecycle event, mode active, mode.player is game.player) samples
+        for ev in POSITIONS + ["ball_started"]:
+            def lh(_ev=ev, queue=None, **kwargs):
+                g, md = m.game, m.modes["m1"]
+                if g is not None and md.active and not md.stopping and md.player is not g.player:
+                    self.binding.append((_ev, None if md.player is None else md.player.number,
+                                         None if g.player is None else g.player.number))
+                if self.arm is not None and self.arm[0] == _ev:
+                    hold = self.arm[1]
+                    self.arm = None
+                    self.fired = _ev
+                    if hold and queue is not None:
+                        queue.wait()
+                        m.delay.add(ms=50, callback=queue.clear)
+                    m.events.post("start_m1")
+            m.events.add_handler(ev, lh, priority=2000000)
         self.cn = m.counters["cn"]
         self.devobj = {"cp_state": m.counters["cp"], "shot_sh1": m.shots["sh1"], "shot_sh2": m.shots["sh2"],
                        "shot_sh3": m.shots["sh3"], "shot_shf_enabled": m.shots["shf"],
@@ -266,6 +308,8 @@ class Run:
         k = op[0]
         self.events = []
         self.dev_events = []
+        self.fired = None
+        self.binding = []
         try:
             if k in ("start", "addplayer"):
                 if k == "start" and m.game is not None:
@@ -292,7 +336,13 @@ class Run:
                 vm.post("acc_%d" % op[1])
             elif k == "seq":
                 vm.post("seq_%d" % op[1])
-            elif k == "drain":
+            elif k == "mstop":
+                vm.post("stop_m1")
+            elif k == "mstart":
+                vm.post("start_m1")
+            elif k in ("drain", "drainw"):
+                if k == "drainw":
+                    self.arm = (op[1], op[2])
                 for _ in range(m.game.balls_in_play):
                     r = tc.post_relay_event_with_params("ball_drain", balls=1)
                     m.playfield.balls -= r["balls"]
@@ -307,9 +357,30 @@ class Run:
             self.settle()
             vm.advance(0.125)
             self.settle()
+            self.arm = None
             return None
+        except CaseTimeout:
+            raise
         except BaseException as e:
             return "crash:" + type(e).__name__
+
+    def pointers(self):
+        """(device, player number it points at) for every device of the active game mode that is bound to somebody"""
+        out = []
+        g = self.m.game
+        if g is None:
+            return out
+        for key, d in self.devobj.items():
+            if key.endswith("_state"):
+                if d._state is not None:
+                    who = [p.number for p in g.player_list if p.vars.get(key) is d._state]
+                    out.append((key, who[0] if who else "nobody"))
+            elif key.startswith("achievements."):
+                if d._player is not None:
+                    out.append((key, d._player.number))
+            elif d.player is not None:
+                out.append((key, d.player.number))
+        return out
 
     def cur(self):
         g = self.m.game
@@ -403,6 +474,7 @@ class Oracle:
         self.snap = []          # per player: oracle-only devices (accrual, sequence): last presented state
         self.bad = []
         self.turns = 0
+        self.mode_on = False    # the game mode runs (reference rule: from ball start to ball end / stop request)
 
     def fail(self, sig, **d):
         self.bad.append((sig, d))
@@ -451,8 +523,35 @@ class Oracle:
             sh = self.shadow[cur_before - 1]
             expected_events.append(("extra_balls", sh["extra_balls"] - 1, sh["extra_balls"], -1, cur_before))
             sh["extra_balls"] -= 1
+        # ---- an active game mode is bound to the player who is up: the mode's player and every device pointer
+        g = run.m.game
+        md = run.m.modes["m1"]
+        if g is not None and g.player is not None and md.active and md.player is not g.player:
+            self.fail("mode-bound-to-wrong-player", op=op, mode_player=None if md.player is None else md.player.number,
+                      current_player=g.player.number)
+        for ev, mp, gp in run.binding:
+            self.fail("mode-bound-to-wrong-player", op=op, at_event=ev, mode_player=mp, current_player=gp)
+        for key, who in run.pointers():
+            if who != cur:
+                self.fail("device-bound-to-wrong-player", op=op, device=key, points_at_player=who, current_player=cur)
+        # ---- reference rule for the mode: stop request ends it, a start request while somebody is up (re)starts it for
+        # that player (devices reload), a start request while nobody is up is refused
+        if not players:
+            self.mode_on = False
+        reload_for = None
+        if k == "mstop":
+            self.mode_on = False
+        elif k == "mstart" and cur_before is not None and players and not self.mode_on:
+            self.mode_on = True
+            reload_for = cur_before
+        elif k == "drainw" and run.fired in POS_BEFORE and cur_before is not None and players:
+            reload_for = cur_before         # restarted for the player whose ball just ended, stopped again at turn end
+        if reload_for is not None and self.dev[reload_for - 1]:
+            dvr = self.dev[reload_for - 1]
+            for key in DEV_KEYS:
+                dvr[key] = ref_load(key, dvr[key])
         # ---- device control events change the current player's shadow device state only
-        if cur_before is not None and players and self.dev[cur_before - 1]:
+        if cur_before is not None and players and self.dev[cur_before - 1] and self.mode_on:
             dv = self.dev[cur_before - 1]
             if k == "dv":
                 key = DEVICES[op[1]][1]
@@ -462,12 +561,17 @@ class Oracle:
                 dv["shot_sh2"], dv["shot_sh3"] = dv["shot_sh3"], dv["shot_sh2"]
         # ---- a ball starts: every device takes what its player stored (through its documented load rule) or starts fresh
         ball_id = (cur, players[cur - 1].vars.get("ball"), players[cur - 1].vars.get("extra_balls", 0)) if cur else None
-        new_ball = cur is not None and ((k == "start" and cur_before is None) or (k == "drain" and ball_id != ball_id_before))
+        new_ball = cur is not None and ((k == "start" and cur_before is None) or
+                                        (k in ("drain", "drainw") and ball_id != ball_id_before))
         if new_ball:
             self.turns += 1
+            self.mode_on = True
             dv = self.dev[cur - 1]
+            same_ball_reload = k == "drainw" and run.fired in POS_BEFORE and cur == cur_before and \
+                players[cur - 1].vars.get("ball") == ball_id_before[1]
             for key in DEV_KEYS:
-                dv[key] = ref_load(key, dv[key]) if key in dv else FRESH[key]
+                if not same_ball_reload:        # (extra ball after a restart: the mode is still running, no reload)
+                    dv[key] = ref_load(key, dv[key]) if key in dv else FRESH[key]
                 got = run.presented(key)
                 if got != dv[key]:
                     self.fail("restore:device-state" if len(dv) == len(DEV_KEYS) and self.turns > 1 and key in dv
@@ -491,6 +595,9 @@ class Oracle:
                         if id(o) in ids:
                             self.fail("fresh:aliasing", op=op, device=d, players=[ids[id(o)], q + 1])
                         ids[id(o)] = q + 1
+        if players and cur is not None and run.mode_on() != self.mode_on:
+            self.fail("mode-running-state", op=op, active=run.mode_on(), expected=self.mode_on)
+            self.mode_on = run.mode_on()
         if cur is not None and run.mode_on():
             for key in ORACLE_ONLY_KEYS:
                 self.snap[cur - 1][key] = run.presented(key)
@@ -540,6 +647,17 @@ class Oracle:
 
 
 def execute(cfg, ops, model):
+    """one case under a wall-clock watchdog: a case can fail, it can never hang"""
+    try:
+        with watchdog(CASE_SECONDS):
+            return execute_unguarded(cfg, ops, model)
+    except CaseTimeout as e:
+        if model is not None:
+            model.p.kill()          # its line protocol may be out of step now; the range stops after a hang
+        return [("hang", {"error": str(e), "ops": len(ops)})], [], {"max_players": 0, "turns": 0, "hangs": 1}
+
+
+def execute_unguarded(cfg, ops, model):
     run = Run(cfg)
     run.start()
     comps = []
@@ -562,7 +680,12 @@ def execute(cfg, ops, model):
             if cr:
                 break
             stats["max_players"] = max(stats["max_players"], len(run.players()))
-            line = model_line(op)
+            if op[0] == "drainw":
+                stats["start_" + ("before" if run.fired in POS_BEFORE else "window" if run.fired in POS_WINDOW
+                                  else "after" if run.fired else "not_reached")] = \
+                    stats.get("start_" + ("before" if run.fired in POS_BEFORE else "window" if run.fired in POS_WINDOW
+                                          else "after" if run.fired else "not_reached"), 0) + 1
+            line = model_line(op, run.fired)
             if model is not None and line is not None:
                 comps.append((line, run.obs(), model.ask(line)))
         stats["turns"] = orc.turns
@@ -586,6 +709,9 @@ def run_case(ctx, cfg, ops, model, sample=True):
         ctx.count("op_" + o[0])
     ctx.count("ball_starts", stats["turns"])
     ctx.count("players_%d" % stats["max_players"])
+    for k2, v2 in stats.items():
+        if k2.startswith("start_") or k2 == "hangs":
+            ctx.count(k2, v2)
     ctx.evaluated(case, stats["max_players"] >= 2 and stats["turns"] >= 4, sample=sample)
     for what, impl, mod in comps:
         ctx.compare(dict(case, at=what), impl, mod)
@@ -601,7 +727,7 @@ def run_case(ctx, cfg, ops, model, sample=True):
             except BootError:
                 return False
             return any(s == sig for s, _ in b)
-        small = ddmin(ops, fails, max_tests=80)
+        small = ops if sig == "hang" else ddmin(ops, fails, max_tests=80)
         try:
             b2, _, _ = execute(cfg, small, None)
         except BootError:
@@ -621,7 +747,7 @@ def run_range(ctx, lo, hi):
             run_case(ctx, gen_cfg(r), gen_ops(r), model)
             if i % 25 == 24:
                 gc.collect()        # stopped machines are cyclic garbage
-            if len(ctx.failures) >= 3 or ctx.hist.get("further_failing_cases", 0) >= 20:
+            if len(ctx.failures) >= 3 or ctx.hist.get("further_failing_cases", 0) >= 20 or ctx.hist.get("hangs"):
                 break       # the verdict is settled; do not burn the budget on more witnesses
     finally:
         if model is not None:
